@@ -195,7 +195,17 @@ pub fn run(ctx: &Ctx) -> (Spec, Report) {
         let multi = rng.chance(1, 3) && !matches!(lang, LangId::Scala | LangId::Go);
         let preexisting = rng.coin();
         let root = scratch.join(format!("c{i}"));
-        let mut files = vec![SrcFile { path: "src_root/victim_crate/src/lib.rs".into(), source: p.source.clone() }];
+        // a third of the runs: the offending item is the only annotated item of its file (the supported background
+        // lives in a second file of the crate), so that the file contributes errors and nothing else
+        let alone = rng.chance(1, 3);
+        let mut files = if alone {
+            vec![
+                SrcFile { path: "src_root/victim_crate/src/lib.rs".into(), source: p.source[BACKGROUND.len()..].to_string() },
+                SrcFile { path: "src_root/victim_crate/src/background.rs".into(), source: BACKGROUND.to_string() },
+            ]
+        } else {
+            vec![SrcFile { path: "src_root/victim_crate/src/lib.rs".into(), source: p.source.clone() }]
+        };
         if multi {
             // clean crates sorted before and after the offending one: the error of one crate must stop all files
             files.push(SrcFile { path: "src_root/aaa_first/src/lib.rs".into(), source: "#[typeshare]\npub struct BystanderA { pub z: u8 }\n".into() });
@@ -252,9 +262,12 @@ pub fn run(ctx: &Ctx) -> (Spec, Report) {
         let mods = modifications_under(&events, out.to_str().unwrap());
         let lname = lang.name();
         let mode = if multi { "multi-file" } else { "single-file" };
-        rep.cell(format!("cli|{}|{}|skip{}|{lname}|{mode}|pre={preexisting}|siblings={siblings}", p.construct, p.position, p.skip));
+        rep.cell(format!("cli|{}|{}|skip{}|{lname}|{mode}|pre={preexisting}|siblings={siblings}|alone={alone}", p.construct, p.position, p.skip));
+        if alone {
+            rep.count("cli_runs_offending_item_alone_in_its_file", 1);
+        }
         rep.count(if siblings { "cli_runs_with_sibling_files" } else { "cli_runs_victim_alone_in_crate" }, 1);
-        let detail = |extra: serde_json::Value| json!({"construct": p.construct, "position": p.position, "depth": p.depth, "skip": p.skip, "language": lname, "mode": mode, "preexisting_output": preexisting, "sibling_files": siblings, "env": order_env, "args": args, "source": p.source, "exit": format!("{:?}", o.exit), "stderr": o.stderr.chars().take(800).collect::<String>(), "extra": extra});
+        let detail = |extra: serde_json::Value| json!({"construct": p.construct, "position": p.position, "depth": p.depth, "skip": p.skip, "language": lname, "mode": mode, "preexisting_output": preexisting, "sibling_files": siblings, "offending_item_alone_in_its_file": alone, "env": order_env, "args": args, "source": p.source, "exit": format!("{:?}", o.exit), "stderr": o.stderr.chars().take(800).collect::<String>(), "extra": extra});
         if o.panicked() || matches!(o.exit, Exit::Timeout(_) | Exit::Signal(_)) {
             rep.inconclusive("cli-panic-or-hang (reported by C07)", json!({"construct": p.construct, "exit": format!("{:?}", o.exit)}));
         } else if p.skip == 0 {
@@ -298,7 +311,7 @@ pub fn run(ctx: &Ctx) -> (Spec, Report) {
     let _ = std::fs::remove_dir_all(&scratch);
     let spec = Spec {
         level: "fault_enumeration",
-        rule: format!("a supported background program plus exactly one planted unsupported construct: {{u64, i64, usize, isize, tuple type}} x 7 positions (struct field, struct-variant field, newtype payload, generic argument, alias target, serialized_as on field / item) x wrapper chains of depth 0-5 (Vec, Option, HashMap key/value, Box, array, slice, reference, user generic) x {{no skip, serde(skip), typeshare(skip)}}, plus tuple structs / variants, serde(flatten) in 3 spellings and 2 positions, data enums without tag/content, tag/content on unit enums and 9 non-integer-literal consts: {} plants x 6 languages through the library (must be rejected with an error naming the file; skipped twins must succeed), and {n_cli} cells through the real binary under strace with and without a pre-existing output, single- and multi-file, alone or with valid sibling files of the same crate and bystander crates, delivered to the collector in arrival, reversed or seeded order (no create/truncate/write/rename/unlink/mkdir event on the output location, bytes/mtime/inode unchanged); distinct = (construct, position, depth, skip, outcome)", all.len()),
+        rule: format!("a supported background program plus exactly one planted unsupported construct: {{u64, i64, usize, isize, tuple type}} x 7 positions (struct field, struct-variant field, newtype payload, generic argument, alias target, serialized_as on field / item) x wrapper chains of depth 0-5 (Vec, Option, HashMap key/value, Box, array, slice, reference, user generic) x {{no skip, serde(skip), typeshare(skip)}}, plus tuple structs / variants, serde(flatten) in 3 spellings and 2 positions, data enums without tag/content, tag/content on unit enums and 9 non-integer-literal consts: {} plants x 6 languages through the library (must be rejected with an error naming the file; skipped twins must succeed), and {n_cli} cells through the real binary under strace with and without a pre-existing output, single- and multi-file, alone or with valid sibling files of the same crate, the offending item next to accepted items or as the only annotated item of its file, and bystander crates, delivered to the collector in arrival, reversed or seeded order (no create/truncate/write/rename/unlink/mkdir event on the output location, bytes/mtime/inode unchanged); distinct = (construct, position, depth, skip, outcome)", all.len()),
         assumptions: vec![
             "consts are planted only for backends with const support (TypeScript, Go, Python)".into(),
             "a run that panics or hangs is C07's finding and counted as inconclusive here".into(),
